@@ -4,7 +4,7 @@ Model of the semi-supervised classifiers around the vote kernel (property C13):
   sknetwork/utils/format.py `get_adjacency_values` (seeds given as array / list / dict / nothing, bipartite
   stacking, block adjacency `[[0,B],[Bᵀ,0]]`);
 * `Diffusion.fit`   : sknetwork/classification/diffusion.py `DiffusionClassifier.fit` up to the soft-max
-  (one-hot seeds, 1/2 elsewhere, `n_iter` clamped iterations of the row-normalised adjacency, centring,
+  (one-hot seeds, 1 elsewhere — the 0.5 of the source is stored into a boolean array —, `n_iter` clamped iterations of the row-normalised adjacency, centring,
   arg-max, reset of the nodes not reached from the seeds);
 * `Knn.fitCore`     : sknetwork/classification/knn.py `NNClassifier._fit_core` (`np.argpartition` is a parameter);
 * `Rank.fitCore`    : sknetwork/classification/base_rank.py `RankClassifier.fit` after the scores are computed
@@ -142,11 +142,13 @@ def reached (n : Nat) (edge : Nat → Nat → Bool) (src : Nat → Bool) : List 
 /-! ### DiffusionClassifier -/
 namespace Diffusion
 
-/-- `get_membership(labels_reindex).toarray()` with `temperatures[labels < 0] = 0.5` -/
+/-- `get_membership(labels_reindex).toarray()` with `temperatures[labels < 0] = 0.5`.
+    The membership matrix has dtype `bool`, so the assignment of `0.5` stores `True`: the rows of the nodes
+    without label start at 1 in every column (observed on the implementation; the model mirrors it). -/
 def initTemps (labels : List Int) (uniq : List Int) : List (List Rat) :=
   labels.map fun l =>
     if 0 ≤ l then tab uniq.length fun k => if indexOf l uniq == k then 1 else 0
-    else List.replicate uniq.length (1/2)
+    else List.replicate uniq.length 1
 
 /-- `normalize(adjacency)`: row `i` as (column, weight / Σ|weights|) -/
 def diffRow (c : Csr Rat) (i : Nat) : List (Nat × Rat) :=
